@@ -51,6 +51,13 @@ func (w *World) execCopyTo(op *Op) bool {
 		return err
 	})
 	w.lenient = false
+	if dst != nil {
+		for _, r := range dst.Log {
+			if r.Kind == IOTrunc {
+				w.failf("copyto-dst-truncated", "CopyTo issued Truncate(%d) on its destination file; only FlushRevert truncates a store file", r.Off)
+			}
+		}
+	}
 	if w.absorbed {
 		w.absorbed = false
 		w.ev["copyto_fault_absorbed"]++
